@@ -142,7 +142,9 @@ Print Assumptions witnesses_harmless_now.
     handler runs some time after its event was queued.  The step [PSyncPod p fl] of the model is the repaired code
     ([sync_given true], fix 08c3290): holding the pod's lock it asks the informer again, skips an object whose UID is not
     the one the informer shows now, continues with the informer's current object, and syncs a pod the informer does
-    not show as given.  [sync_given false] is the code before the repair: the given object is used as it is. *)
+    not show as given.  [sync_given false] uses the given object as it is (the code before that repair, but with the later
+    test F18 of [sync_ips]: no sync while the key holds an IP stored for another UID); the code as it was when F16 was
+    found - the given object as it is and no F18 test - is [sync_pod_ip_old] of Proofs/PluginStaleP.v. *)
 
 (** which objects a well-formed history may hand to the sync: (a) the informer's current object ... *)
 Theorem pod_sync_object_current : ∀ w p fl, WInv w → w_lister w !! pk p = Some p → wf_op w (PSyncPod p fl).
@@ -187,13 +189,17 @@ Theorem stale_sync_refuted_old : ∃ nodes ops ops1 pa q x o ocl,
   (* [q] is the pod of that name now: another incarnation, live, bound to another IP, owning it *)
   w_pods w !! pk q = Some q ∧ w_lister w !! pk q = Some q ∧ pk q = pk pa ∧ pd_uid q ≠ pd_uid pa ∧ x ∉ pd_ips q ∧
   live_bound q ∧ owned (w_ipam w) q ∧
-  (* old behaviour: after the sync with [pa] and the resync item of [x] (not stuck), [q] no longer owns its IP *)
-  (resync_section (sync_given false w pa no_faults) x o ocl no_faults).2 = SOk ∧
-  ¬ owned (w_ipam (resync_section (sync_given false w pa no_faults) x o ocl no_faults).1) q ∧
-  (∀ y, y ∈ pd_ips q → i_alloc (w_ipam (resync_section (sync_given false w pa no_faults) x o ocl no_faults).1) !! y = None) ∧
+  (* old behaviour (the given object synced as it is, no F18 test): after the sync with [pa] and the resync item of [x]
+     (not stuck), [q] no longer owns its IP *)
+  (resync_section (sync_pod_ip_old w pa no_faults) x o ocl no_faults).2 = SOk ∧
+  ¬ owned (w_ipam (resync_section (sync_pod_ip_old w pa no_faults) x o ocl no_faults).1) q ∧
+  (∀ y, y ∈ pd_ips q → i_alloc (w_ipam (resync_section (sync_pod_ip_old w pa no_faults) x o ocl no_faults).1) !! y = None) ∧
   (* repaired behaviour, same continuation: [q] keeps it *)
   (resync_section (sync_given true w pa no_faults) x o ocl no_faults).2 = SOk ∧
-  owned (w_ipam (resync_section (sync_given true w pa no_faults) x o ocl no_faults).1) q.
+  owned (w_ipam (resync_section (sync_given true w pa no_faults) x o ocl no_faults).1) q ∧
+  (* the later F18 test alone (the given object used as it is, [sync_given false]) also refuses this sync: the key holds
+     the IP of [q], stored for another UID *)
+  sync_given false w pa no_faults = w.
 Proof. exact stale_sync_refuted_old_l. Qed.
 Print Assumptions stale_sync_refuted_old.
 
